@@ -358,6 +358,10 @@ func judge(c *core.Ctx, sc SchedCase, trace []int, results [][]string, s *zzsync
 		c.Fail("", cs, "deadlock in scenario %q with schedule %v: %v", sc.Scenario, trace, s.Trace)
 		return
 	}
+	if s.Stuck {
+		c.Fail("", cs, "scenario %q with schedule %v: a caller blocked for 10 s on something other than the hooked sync operations while the others were held back (%v): the call does not return under this schedule", sc.Scenario, trace, s.Trace)
+		return
+	}
 	if len(s.Panics()) > 0 {
 		c.Fail("", cs, "scenario %q schedule %v: %v", sc.Scenario, trace, s.Panics())
 		return
@@ -397,7 +401,9 @@ func exploreScenario(c *core.Ctx, sc SchedCase) {
 		judge(c, sc, ch.Trace(), results, s)
 	})
 	if maxPoints < 4 {
-		c.Internal("scenario %q reached only %d scheduling points: the sync seam is not in effect", sc.Scenario, maxPoints)
+		// the code under test performs (almost) no sync operations: there is nothing to interleave, the
+		// search is vacuous and only the free-running race pass can say anything about concurrent callers
+		c.Cap(fmt.Sprintf("scenario %q reached only %d scheduling points: pkg/inflector does not synchronise through package sync, the interleaving search is vacuous", sc.Scenario, maxPoints))
 	}
 }
 
